@@ -94,3 +94,35 @@ var replayers = map[string]func(cfg, cs json.RawMessage) string{
 		return ""
 	},
 }
+
+// trace-based pipelines: the replay file names a kept trace; it is validated again by TLC
+func init() {
+	traceReplayer := func(module, cfg string) func(cfgRaw, cs json.RawMessage) string {
+		return func(cfgRaw, cs json.RawMessage) string {
+			var c struct {
+				TraceFile string `json:"trace_file"`
+			}
+			if json.Unmarshal(cs, &c) != nil || c.TraceFile == "" {
+				infraFail("this replay file does not name a trace file; re-run the property's check with the recorded VERIF_SEED instead")
+			}
+			ctx := newCtx("replay", "quick")
+			defer ctx.cleanup()
+			res := ctx.runTLC(TLCOpts{Module: module, Cfg: cfg, Purpose: "replay", Workers: 1, Env: []string{"VERIF_TRACE=" + c.TraceFile}})
+			if res.Violated != "" {
+				return fmt.Sprintf("%s rejects the recorded trace %s at line %d (%s)", module, c.TraceFile, res.LastL-1, res.Violated)
+			}
+			return ""
+		}
+	}
+	replayers["storetrace"] = traceReplayer("Trace_Store", traceStoreCfg)
+	replayers["sketchtrace"] = traceReplayer("Trace_Sketch", fmt.Sprintf(traceSketchCfgFmt, skTraceQ))
+	replayers["varint-trace"] = traceReplayer("Trace_Varint", traceVarintCfg)
+	replayers["wire-producer"] = traceReplayer("Trace_Wire", traceWireCfg)
+	replayers["proto"] = func(cfgRaw, cs json.RawMessage) string {
+		pc := &protoCase{}
+		if json.Unmarshal(cs, pc) != nil {
+			infraFail("bad proto replay file")
+		}
+		return checkProtoCase(pc)
+	}
+}
